@@ -172,6 +172,18 @@ CHECKS = {
               "fas2values / fas2signal on even lengths."),
         design_ref="DESIGN.md section 4, C06",
         note=LEVEL_NOTE_N + "; explicit n >= npts; inverse helper on even transform lengths"),
+    "C07": dict(
+        engine="Smooth",
+        technique="TLA+ definition of the Konno-Ohmachi window and the normalised weighted mean over the FP carrier; TLC exhaustive over amplitude patterns with the implementation in lock-step; TLC trace validation with one event per target frequency / weight column",
+        category="model_checking",
+        text=("MC_Smooth: amplitudes over {0,1,3} on 3..6 (quick) / 3..8 Fourier bins, six targets (on the grid, between, outside both "
+              "sides), bands 5 / 40 / 100: weights non-negative, finite, normalised, 1 at f = fc; bounded by min/max; constant reproduced; "
+              "homogeneous; matrix = direct; zero bin ignored -- and calc_smooth_fa_spectrum (with / without zero bin, complex / real), "
+              "calc_smoothing_matrix_konno_1998 equal the definition in every state. Trace_Smooth: spectra of random records, targets "
+              "exactly on the Fourier grid (and their float neighbours), inside, far outside, wide spans at b = 100, object level after "
+              "each smoothing-frequency setter, deprecated wrapper, targets=None; weight columns; bandwidth limits ordered and bracketing."),
+        design_ref="DESIGN.md section 4, C07",
+        note=LEVEL_NOTE_N),
 }
 
 NOT_YET = {}
